@@ -1,7 +1,7 @@
 """C10 — stale, replayed, mis-typed or unbound handshakes are rejected (DESIGN.md 4/C10)."""
 from ..mir import Callee, last_seg, loc, op_const, op_int, op_place
 from .common import (ty_kind, const_cmp_of_switch, err_return_reachable_only, gates_of_value, ok_some_blocks, returns_variant,
-                     success_edge_dominates)
+                     success_edge_dominates, outermost, accept_blocks, err_only)
 
 EXPLANATION = (
     "V1 window functions: the comparison of |now - ts| with a constant is normalised to an accept interval [0,T]; "
@@ -65,6 +65,8 @@ def window_rule(ctx, body, rule, source_methods, expected, accept_blocks, what):
 
 def accept_blocks_of(body):
     """accepting returns of a decoder: Ok(Some(..)) if the function returns Result<Option<..>>, else every Ok(..)"""
+    if getattr(body, "is_flat", False):
+        return accept_blocks(body)
     ret_ty = body.local_ty(0)
     rv = returns_variant(body)
     if "Option<" in ret_ty.split("Result<", 1)[-1][:40]:
@@ -139,6 +141,46 @@ def run(ctx):
         ctx.ob("V1a", body.defp, "vmess-authid:crc-equality", loc(body.sp), crc_ok,
                "accepting return is " + ("" if crc_ok else "NOT ") + "dominated by the CRC-equal edge")
 
+    # ---------------- roles ------------------------------------------------------------------------
+    # (a) the two type-byte tables of the Shadowsocks Mode: by their *tables*, not their names: own = {client:0, server:1}, peer = 1 - own
+    own_fns, peer_fns, tabs = set(), set(), {}
+    for body in prog.prod_bodies():
+        if body.impl_self_def and body.impl_self_def.endswith("protocol::shadowsocks::Mode") and body.root == body.defp and body.local_ty(0) == "u8" and body.argc == 1:
+            tb = mode_table(body)
+            if tb == {0: 0, 1: 1}:
+                own_fns.add(body.defp)
+                tabs["own"] = tb
+            elif tb == {0: 1, 1: 0}:
+                peer_fns.add(body.defp)
+                tabs["peer"] = tb
+            else:
+                tabs[body.method] = tb
+
+    def is_own(c):
+        return c.target in own_fns
+
+    def is_peer(c):
+        return c.target in peer_fns
+    # (b) the replay-cache accessors: methods that lock a Mutex and query / fill an LruCache
+    lookup_fns, record_fns = set(), set()
+    for body in prog.prod_bodies():
+        if body.root != body.defp or "shadowsocks" not in body.defp:
+            continue
+        names = {c.name for (_, c, _) in body.calls()}
+        meths = {c.method for (_, c, _) in body.calls() if "LruCache" in (c.self_s or "")}
+        if not any(n.startswith("Mutex::") for n in names) or not meths:
+            continue
+        if "insert" in meths:
+            record_fns.add(body.defp)
+        elif meths & {"contains_key", "get", "peek"}:
+            lookup_fns.add(body.defp)
+
+    def is_lookup(c):
+        return c.target in lookup_fns
+
+    def is_record(c):
+        return c.target in record_fns
+
     # ---------------- V1b / V2: every 2022 header decoder ---------------------------------------
     def is_vt(c):
         return c.target in vt_paths
@@ -151,9 +193,12 @@ def run(ctx):
         reads = any(c.name in ("Buf::get_u8", "Buf::get_u64") for c in names)
         if not reads:
             continue
-        if any(is_vt(c) for c in names) or any(c.name == "Mode::expect_u8" for c in names) or \
-                (any(c.name == "Mode::to_u8" for c in names) and any(c.name == "Buf::get_u8" for c in names) and "decode" in b.defp):
+        if any(is_vt(c) for c in names) or any(is_peer(c) for c in names) or \
+                (any(is_own(c) for c in names) and any(c.name == "Buf::get_u8" for c in names) and "decode" in b.defp):
             decs.append(b)
+    # a check extracted into a helper is analysed inside the decoder that calls it (flat view), not as a decoder of its own
+    from .common import lift_to_decoders, succ_dom, edge_dom
+    decs = [prog.flat(b.defp) for b in outermost(prog, lift_to_decoders(prog, decs))]
     ctx.floor("V1b", "Shadowsocks-2022 header/datagram decoders", 3, len(decs))
     for body in decs:
         acc = accept_blocks_of(body)
@@ -171,7 +216,7 @@ def run(ctx):
             ctx.ob("V1b", body.defp, "timestamp-from-header", loc(t["sp"]), src_ok,
                    "timestamp argument " + ("derives" if src_ok else "does NOT derive") + " from get_u64 of the header")
             for ab in acc:
-                ok, why = success_edge_dominates(body, blk, ab)
+                ok, why = succ_dom(prog, body, blk, ab)
                 ctx.ob("V1b", body.defp, "accept-behind-timestamp", loc(t["sp"]), ok, why)
         # --- type byte
         type_ok_sites = 0
@@ -188,47 +233,39 @@ def run(ctx):
                 continue
             _, ca, _ = body.slice_back([pa[0]])
             _, cb, _ = body.slice_back([pb[0]])
-            na = {c.name for (_, c, _) in ca}
-            nb = {c.name for (_, c, _) in cb}
-            exp = {"Mode::expect_u8", "Mode::to_u8"}
+            na = {("peer-type" if is_peer(c) else "own-type" if is_own(c) else c.name) for (_, c, _) in ca}
+            nb = {("peer-type" if is_peer(c) else "own-type" if is_own(c) else c.name) for (_, c, _) in cb}
+            exp = {"peer-type", "own-type"}
             if ("Buf::get_u8" in na and nb & exp) or ("Buf::get_u8" in nb and na & exp):
                 type_ok_sites += 1
                 eq_t = tt if op == "Eq" else ft
                 ne_t = ft if op == "Eq" else tt
                 for ab in acc:
-                    ok = body.edge_dominates(b, eq_t, ab)
+                    ok = edge_dom(prog, body, b, eq_t, ab)
                     ctx.ob("V2", body.defp, "accept-behind-type-check", loc(t["sp"]), ok,
                            "accepting return is " + ("" if ok else "NOT ") + "dominated by the type-equal edge")
-                ok = err_return_reachable_only(body, ne_t)
+                ok = err_only(prog, body, ne_t)
                 ctx.ob("V2", body.defp, "type-mismatch-rejects", loc(t["sp"]), ok, "type mismatch edge only reaches an Err return" if ok else "type mismatch edge can reach a non-Err return")
                 # the expectation must be the *receiver's* expectation: expect_u8() of own mode, or to_u8() of the opposite constant
                 which = (nb if "Buf::get_u8" in na else na) & exp
                 ctx.ob("V2", body.defp, "type-expectation-source", loc(t["sp"]), bool(which), f"expected type comes from {sorted(which)}")
         if type_ok_sites == 0:
             ctx.ob("V2", body.defp, "type-check", loc(body.sp), False, "no comparison of the header's type byte with the expected type")
-    # Mode::expect_u8 / to_u8 complementary (B7)
-    for nm in ("expect_u8", "to_u8"):
-        pass
-    tabs = {}
-    for body in prog.prod_bodies():
-        if body.defp.endswith("protocol::shadowsocks::{impl#0}::expect_u8") or body.defp.endswith("protocol::shadowsocks::{impl#0}::to_u8") or \
-                (body.impl_self_def and body.impl_self_def.endswith("protocol::shadowsocks::Mode") and body.method in ("expect_u8", "to_u8")):
-            tabs[body.method] = mode_table(body)
-    ctx.floor("V2", "Mode::{to_u8, expect_u8} tables", 2, len(tabs))
-    if len(tabs) == 2:
-        t1, t2 = tabs["to_u8"], tabs["expect_u8"]
-        ok = set(t1.keys()) == set(t2.keys()) == {0, 1} and all(t1[k] == 1 - t2[k] for k in t1) and t1.get(0) == 0 and t1.get(1) == 1
-        ctx.ob("V2", "protocol::shadowsocks::Mode", "to/expect complementary", "octo-squirrel/src/protocol/shadowsocks.rs", ok,
-               f"to_u8={t1} expect_u8={t2}; need client=0, server=1 and expect = 1 - to", ordinal=False)
+    # the own-type / peer-type tables exist and are complementary (B7)
+    ctx.floor("V2", "Mode type-byte tables (own = {client:0, server:1}, peer = 1 - own)", 2, len(own_fns) + len(peer_fns))
+    ok = bool(own_fns) and bool(peer_fns)
+    ctx.ob("V2", "protocol::shadowsocks::Mode", "to/expect complementary", "octo-squirrel/src/protocol/shadowsocks.rs", ok,
+           f"u8 tables of Mode: {tabs}; need one with client=0, server=1 and one with the complement", ordinal=False)
 
     # ---------------- V3: salt replay (server stream) -------------------------------------------
-    hdr = [b for b in decs if any(c.method == "check_nonce" for (_, c, _) in b.calls()) or "tcp" in b.defp]
-    chk = [b for b in prog.prod_bodies() if any(c.method == "check_nonce" for (_, c, _) in b.calls())]
+    ctx.floor("V3", "replay-cache accessors (lookup / record under the mutex)", 2, len(lookup_fns) + len(record_fns))
+    stream_decs = [b for b in decs if any(is_lookup(c) or is_record(c) for (_, c, _) in b.calls()) or "::tcp::" in b.defp]
+    chk = [b for b in decs if any(is_lookup(c) for (_, c, _) in b.calls())]
     ctx.floor("V3", "stream header decoders that look the salt up", 1, len(chk))
-    for body in [b for b in decs if "::tcp::" in b.defp]:
+    for body in stream_decs:
         acc = accept_blocks_of(body)
-        cn = [(blk, c, t) for (blk, c, t) in body.calls() if c.method == "check_nonce"]
-        sn = [(blk, c, t) for (blk, c, t) in body.calls() if c.method == "set_nonce"]
+        cn = [(blk, c, t) for (blk, c, t) in body.calls() if is_lookup(c)]
+        sn = [(blk, c, t) for (blk, c, t) in body.calls() if is_record(c)]
         opens = [(blk, c, t) for (blk, c, t) in body.calls() if c.name == "Authenticator::open" or c.method in ("decrypt_in_place", "new_decoder_with_eih")]
         if not cn:
             ctx.ob("V3", body.defp, "salt-lookup", loc(body.sp), False, "stream header decoder never looks the salt up in the replay cache")
@@ -240,9 +277,9 @@ def run(ctx):
             for g in gates:
                 miss_t = g.bool_target(False)
                 hit_t = g.bool_target(True)
-                if acc and all(body.edge_dominates(g.block, miss_t, ab) for ab in acc):
+                if acc and all(edge_dom(prog, body, g.block, miss_t, ab) for ab in acc):
                     ok_dom = True
-                if err_return_reachable_only(body, hit_t):
+                if err_only(prog, body, hit_t):
                     ok_rej = True
             ctx.ob("V3", body.defp, "accept-behind-salt-miss", loc(t["sp"]), ok_dom, "accepting return dominated by the cache-miss edge" if ok_dom else "accepting return NOT dominated by the cache-miss edge of the salt lookup")
             ctx.ob("V3", body.defp, "salt-hit-rejects", loc(t["sp"]), ok_rej, "cache hit only reaches Err" if ok_rej else "cache hit can reach a non-Err return")
@@ -266,7 +303,7 @@ def run(ctx):
                     if pl[0] != 1 or not pl[1] or pl[1][0][0] != "deref" or len(pl[1]) < 2:
                         continue
                     if gs:
-                        ok = any(body.edge_dominates(g.block, g.bool_target(True), bb) for g in gs)
+                        ok = any(edge_dom(prog, body, g.block, g.bool_target(True), bb) for g in gs)
                     else:
                         ok = body.dominates(blk, bb) and blk != bb
                     ctx.ob("V3", body.defp, "state-installed-after-salt-recorded", loc(s_["sp"]), ok,
@@ -314,7 +351,7 @@ def run(ctx):
                f"salt cache expiry = {secs}s; must be >= 2 x {WINDOW_2022}s = {2 * WINDOW_2022}s (a request stamped now+30 stays fresh for 60 s)")
 
     # ---------------- V4: response bound to request ---------------------------------------------
-    for body in [b for b in decs if "::tcp::" in b.defp]:
+    for body in stream_decs:
         acc = accept_blocks_of(body)
         # comparison (PartialEq::eq/ne or array compare) between header-derived bytes and identity.salt
         found = False
@@ -338,7 +375,7 @@ def run(ctx):
                 eq_truth = (c.name == "PartialEq::eq")
                 eq_t = g.bool_target(eq_truth)
                 ne_t = g.bool_target(not eq_truth)
-                if err_return_reachable_only(body, ne_t):
+                if err_only(prog, body, ne_t):
                     found = True
         ctx.ob("V4", body.defp, "request-salt-compared", loc(body.sp), found,
                "client compares the echoed request salt with its own salt, mismatch => Err" if found else
@@ -370,13 +407,13 @@ def run(ctx):
                                 fields += [e[2] for e in pp[1] if e[0] == "field" and e[2]]
             if "response_header" in fields:
                 ne_t = ft if op == "Eq" else tt
-                if err_return_reachable_only(body, ne_t):
+                if err_only(prog, body, ne_t):
                     found = True
                     # the body decoder may only be installed behind the equal edge
                     eq_t = tt if op == "Eq" else ft
                     for (blk, c, t2) in body.calls():
                         if c.method == "new_decoder":
-                            ok = body.edge_dominates(b, eq_t, blk)
+                            ok = edge_dom(prog, body, b, eq_t, blk)
                             ctx.ob("V4", body.defp, "body-decoder-behind-response-byte", loc(t2["sp"]), ok,
                                    "body decoder is only created behind the response-byte-equal edge" if ok else "body decoder can be created without the response byte check")
         ctx.ob("V4", body.defp, "response-byte-compared", loc(body.sp), found,
